@@ -1455,13 +1455,16 @@ func (up4 *UP4) sendUpdate(all PacketForwardingRules, updated PacketForwardingRu
 }
 
 func (up4 *UP4) sendDelete(deleted PacketForwardingRules) error {
+	if err := up4.modifyUP4ForwardingConfiguration(deleted.pdrs, deleted.fars, deleted.qers, p4.Update_DELETE); err != nil {
+		return err
+	}
+
+	// The counter cells are free only once the entries that carry them are gone: if the
+	// deletion fails the session keeps its entries, and its counters must not be handed
+	// out to another session.
 	for i := range deleted.pdrs {
 		up4.releaseCounterID(preQosCounterID,
 			uint64(deleted.pdrs[i].ctrID))
-	}
-
-	if err := up4.modifyUP4ForwardingConfiguration(deleted.pdrs, deleted.fars, deleted.qers, p4.Update_DELETE); err != nil {
-		return err
 	}
 
 	up4.resetMeters(deleted.qers)
